@@ -458,7 +458,7 @@ func meta(c Case) vr.Meta {
 }
 
 func TestWorkbooks(t *testing.T) {
-	vr.Prop(t, "workbook", vr.N(2500, 36000), genCase, meta, checkCase)
+	vr.Prop(t, "workbook", vr.N(3000, 50000), genCase, meta, checkCase)
 }
 
 // ---------------------------------------------------------------------------
